@@ -421,3 +421,44 @@ Proof. intros H. unfold optimal_assign. rewrite (scan_best_ext pscore (perm_scor
   intros p Hp. apply perm_score_ext; auto. intros x Hx.
   apply all_perms_sound in Hp. apply (is_perm_bound K p); auto. unfold is_perm. symmetry; auto. Qed.
 End Order.
+
+(* ---------------------------------------------------------------- integer matrices *)
+(* with every entry above the dtype minimum the integer variant is the -inf variant ... *)
+Section IntBottom.
+Variables (K : nat) (Sc : nat -> nat -> BinNums.Z) (bottom : BinNums.Z).
+Hypothesis above : forall i j, i < K -> j < K -> BinInt.Z.lt bottom (Sc i j).
+
+Lemma argmax_int_agrees R C (l : list (nat * nat)) b :
+  (forall p, In p (b :: l) -> fst p < K /\ snd p < K) ->
+  argmax_int (key_int Sc bottom R C) l b = argmax_from BinInt.Z.ltb (key Sc R C) l b.
+Proof. revert b; induction l as [|c r IH]; intros b H; simpl; auto.
+  assert (E: BinInt.Z.ltb (key_int Sc bottom R C b) (key_int Sc bottom R C c) = clt BinInt.Z.ltb (key Sc R C b) (key Sc R C c)).
+  { unfold key_int, key. destruct (H b (or_introl eq_refl)) as [B1 B2]. destruct (H c (or_intror (or_introl eq_refl))) as [C1 C2].
+    destruct (avail R C b), (avail R C c); simpl; auto.
+    - apply BinInt.Z.ltb_ge. apply BinInt.Z.lt_le_incl. apply above; auto.
+    - apply BinInt.Z.ltb_lt. apply above; auto.
+    - apply BinInt.Z.ltb_irrefl. }
+  rewrite E. destruct (clt BinInt.Z.ltb (key Sc R C b) (key Sc R C c)); apply IH; intros p [<-|Hp]; apply H; simpl; auto. Qed.
+Lemma pick_int_agrees R C : pick_int K Sc bottom R C = pick BinInt.Z.ltb K Sc R C.
+Proof. unfold pick_int, pick. destruct (cells K) as [|c r] eqn:Ec; auto. apply argmax_int_agrees.
+  intros p Hp. rewrite <- Ec in Hp. unfold cells in Hp. destruct p as [a b]. apply in_prod_iff in Hp as [Ha Hb].
+  apply in_seq in Ha, Hb. simpl. lia. Qed.
+Lemma greedy_int_agrees fuel R C acc : greedy_int K Sc bottom fuel R C acc = greedy BinInt.Z.ltb K Sc fuel R C acc.
+Proof. revert R C acc; induction fuel as [|f IH]; intros; simpl; auto. rewrite pick_int_agrees. apply IH. Qed.
+Theorem greedy_assign_int_agrees : greedy_assign_int K Sc bottom = greedy_assign BinInt.Z.ltb K Sc.
+Proof. unfold greedy_assign_int, greedy_assign. rewrite greedy_int_agrees. reflexivity. Qed.
+Theorem greedy_assign_int_is_perm : is_perm K (greedy_assign_int K Sc bottom).
+Proof. rewrite greedy_assign_int_agrees. apply greedy_assign_is_perm.
+  - apply BinInt.Z.ltb_irrefl.
+  - intros x y z H1 H2. apply BinInt.Z.ltb_lt in H1, H2. apply BinInt.Z.ltb_lt. lia.
+  - intros x y z H1 H2. apply BinInt.Z.ltb_ge in H1, H2. apply BinInt.Z.ltb_ge. lia. Qed.
+End IntBottom.
+
+(* ... but a matrix that contains the dtype minimum defeats the masking *)
+Theorem greedy_int_min_refuted :
+  exists (K : nat) (Sc : nat -> nat -> BinNums.Z) (bottom : BinNums.Z), ~ is_perm K (greedy_assign_int K Sc bottom).
+Proof. exists 2, (fun _ _ => BinNums.Z0), BinNums.Z0. intros H.
+  assert (E: greedy_assign_int 2 (fun _ _ => BinNums.Z0) BinNums.Z0 = [0; 0]) by (vm_compute; reflexivity).
+  rewrite E in H. unfold is_perm in H. simpl in H.
+  assert (Hin: In 1 [0; 0]) by (apply (Permutation_in _ (Permutation_sym H)); simpl; auto).
+  simpl in Hin. destruct Hin as [Hc|[Hc|[]]]; discriminate. Qed.
